@@ -55,7 +55,8 @@ PROPS = {
         trusted_base=COMMON_TB + [
             "Attrs.v is a hand model of attributes.rs (three scanners) and of the option record lib.rs:58 builds; tied by RunC18.corr to the real functions (attributes.rs is compiled into the harness from the working tree by #[path])",
             "syn's tokenisation of the attribute and LitStr decoding of plain / raw / escaped literals (the model's literals carry decoded values)",
-            "the glue in graphql_query_derive/src/lib.rs (which extractor feeds which setter) is mirrored by Attrs.derive_options; it is observed through real derives only in the consumer-based checks (C02/C05)",
+            "the glue in graphql_query_derive/src/lib.rs (which extractor feeds which setter) is mirrored by Attrs.derive_options and observed end to end by seven compiled probes per run: the real macro in a workspace member (cargo check / cargo run), programs that compile and exit 0 only if the options written in the attribute were applied and relative paths were resolved against the member's manifest directory",
+            "rustc's #[expect(deprecated)] / unfulfilled_lint_expectations (how a probe observes that a field is marked deprecated)",
         ],
         assumptions=["keys of one attribute are pairwise distinct (a repeated key is outside the property's quantifier)"],
     ),
